@@ -50,8 +50,32 @@ def _flat_and(test):
     return [test]
 
 
+def _monotonic(ctx, repo) -> None:
+    """The time a worker has been running is measured on a clock that cannot step: with time.time() a wall-clock step back
+    (NTP, manual change) makes the elapsed time negative and the budget of the restarted worker LARGER than before."""
+    n = 0
+    for mod, qn, fn in repo.all_functions(MA):
+        for st in own_nodes(fn):
+            if not isinstance(st, (ast.Assign, ast.AnnAssign, ast.AugAssign)):
+                continue
+            text = norm(st)
+            if "_start_time" not in text:
+                continue
+            calls = [norm(c.func) for c in ast.walk(st) if isinstance(c, ast.Call) and norm(c.func).startswith("time.")]
+            if not calls:
+                continue
+            n += 1
+            ctx.analysed(fn)
+            bad = [c for c in calls if c not in ("time.monotonic", "time.perf_counter", "time.monotonic_ns", "time.perf_counter_ns")]
+            ctx.check("C33.monotonic", st, not bad, f"{qn}: `{text[:80]}` measures the worker's running time with {bad}: after a wall-clock step back the elapsed time is negative and _adjust_search_time_after_crash RAISES the remaining budget (10 s became 109 s) - restarts are no longer bounded by a strictly shrinking budget", what=f"{qn}: running time on a monotonic clock", stmt=f"[{qn}] {text[:60]}")
+    if n < 2:
+        raise AnalysisError(f"C33.monotonic: only {n} start-time / elapsed computations found (confirmed by reading: 2)")
+
+
 def check(ctx) -> None:
     repo = ctx.repo
+    ctx.rule("C33.monotonic", "the start time of a worker and the elapsed time taken from it use a monotonic clock", floor=2)
+    _monotonic(ctx, repo)
     ctx.rule("C33.eof", "when get_result relies on EOF (no liveness-watching wait): the parent's copy of the pipe's sending end is closed after process.start() on every path and never escapes into an attribute / container; always: the receiving end is stored and the worker gets (task, sending end)", floor=4)
     ctx.rule("C33.variant", "every path of _restart to _start_worker passes _adjust_search_time_after_crash(elapsed since start) and the `maximum_search_time <= 0` abort", floor=4)
     ctx.rule("C33.decrease", "ABSINT over a boundary partition: for budget > 0 and elapsed > 0 the adjusted budget is an int, >= 0 and strictly smaller than the old one", floor=1)
